@@ -478,6 +478,25 @@ class Gen:
             self.emit(main, "nop")
             self.emit(main, "}")
             p.features.add("defined")
+        # text that merely LOOKS like the names: a comment and a plain string
+        some = [d.name for d in p.defs if d.kind not in ("param",)]
+        if some and rng.random() < 0.8:
+            a, b = rng.choice(some), rng.choice(some)
+            self.emit(main, "// %s and %s.%s are mentioned here" % (a, b, a))
+            self.emit(main, '.text "%s"' % a)
+            p.features.add("comment_string")
+        # an anonymous block of its own with a pool name: a name "in another scope"
+        if rng.random() < 0.6:
+            nm = rng.choice(NAMES)
+            self.emit(main, "{")
+            blk = Scope("anon", root, main)
+            self.emit(main, "nop")
+            ln = self.emit(main, "%s: nop" % nm)
+            d = self.add_def(nm, "label", blk, main, ln, 0)
+            d.tagline = (main, ln)
+            ln = self.emit(main, None)
+            self.pending_uses.append((main, ln, blk, True, None, ("local", d)))
+            self.emit(main, "}")
         if p.settled:
             name = p.fresh_name(rng, "z")
             ln = self.emit(main, "%s: nop" % name)
